@@ -2,6 +2,8 @@ mod c01;
 mod c02;
 mod c05;
 mod common;
+mod storeops;
+mod storeprops;
 mod wire;
 
 fn main() -> anyhow::Result<()> {
@@ -18,6 +20,7 @@ fn main() -> anyhow::Result<()> {
     match prop {
         "C01" => c01::run(seed, n, &out, thorough, "C01", "Check.C01"),
         "C02" => c02::run(seed, n, &out, thorough),
+        "C07" | "C13" | "C15" | "C16" | "C17" => storeprops::run(prop, seed, n, &out, thorough),
         "C08" => c01::run(seed, n, &out, thorough, "C08", "Check.C08"),
         "C05" => c05::run(seed, n, &out, thorough),
         _ => anyhow::bail!("unknown property {prop}"),
